@@ -25,6 +25,7 @@
 
 #include "scientificinfo.h"
 #include "clustering.h"
+#include "verifhooks.h"
 #include "metricspace.h"
 #include "numeric.h"
 #include "matrix.h"
@@ -153,6 +154,10 @@ void MDC(matrix* m,
 
   nmdc = 0;
   while(1){
+    #ifdef LIBSCIENTIFIC_VERIF
+    if(libsci_verif_tick_hook != NULL)
+      libsci_verif_tick_hook(5, nmdc, 0.0);
+    #endif
     /* Find the compound with largest value in vectinfo */
 
     dist = vectinfo->data[0];
@@ -785,6 +790,10 @@ void KMeansppCenters(matrix *m,
 
   /* Step 2 */
   while(q > 1){
+    #ifdef LIBSCIENTIFIC_VERIF
+    if(libsci_verif_tick_hook != NULL)
+      libsci_verif_tick_hook(3, selections->size, (double)q);
+    #endif
     size_t nobj = ceil((double)m->row/(double)nthreads);
     size_t from = 0;
     for(i = 0; i < nthreads; i++){
@@ -1237,6 +1246,10 @@ void KMeans(matrix* m,
    * EPSILON of the origin would otherwise look converged before anything was labelled. */
   while(it == 0 || shouldStop(centroids, oldcentroids, it, 100) == 0)
   {
+    #ifdef LIBSCIENTIFIC_VERIF
+    if(libsci_verif_tick_hook != NULL)
+      libsci_verif_tick_hook(4, (size_t)it, 0.0);
+    #endif
     #ifdef DEBUG
     clock_t t = clock();
     #endif
